@@ -38,6 +38,9 @@ class Module:
         self.patterns = [dict(p, ast=ast.parse(p['pattern'], mode='eval').body, type=parse_type(p['type']),
                               args=[parse_type(a) for a in p['args']]) for p in sig.get('patterns', [])]
         self._loops = {}
+        self._whiles = {}
+        self.oracles = [dict(o, ast=ast.parse(o['pattern'], mode='eval').body, ret=parse_type(o['ret']),
+                             args=[parse_type(a) for a in o['args']]) for o in sig.get('oracles', [])]
         self.structs = {k: {f: parse_type(t) for f, t in v['fields'].items()} for k, v in sig.get('structs', {}).items()}
         self.struct_alias = {k: v.get('alias', {}) for k, v in sig.get('structs', {}).items()}
         self.aliases = []
@@ -103,11 +106,11 @@ class Module:
         end = getattr(node, 'end_lineno', node.lineno)
         return '%s:%d-%d' % (self.src_name, node.lineno, end) if end != node.lineno else '%s:%d' % (self.src_name, node.lineno)
 
-    def emit_def(self, name, params, rtype, body, node):
+    def emit_def(self, name, params, rtype, body, node, keyword='Definition'):
         if name in self.defined:
             raise Unsupported(node, 'coq name %s is generated twice' % name)
         self.defined.add(name)
-        self.out.append('(* %s *)\nDefinition %s%s : %s :=\n%s.' % (self.ref(node), name, params, rtype, indent(body, 2)))
+        self.out.append('(* %s *)\n%s %s%s : %s :=\n%s.' % (self.ref(node), keyword, name, params, rtype, indent(body, 2)))
 
     def find(self, q, node_hint=0):
         n = self.top.get(q) if '.' not in q else self.methods.get(q)
@@ -201,6 +204,11 @@ class Module:
         ps, va, kw = self.params_of(entry, node, method)
         self._cur = entry
         env = self.new_env(entry, ps)
+        for n_, t_ in entry.get('inputs', {}).items():      # oracle lists and call logs: inputs of the model, not of the code
+            env.vars[n_] = (cname(n_), parse_type(t_))
+        has_while = any(isinstance(x, ast.While) for x in ast.walk(node))
+        if has_while:
+            env.vars['fuel_ok'] = ('fuel_ok', ('bool',))
         if 'result' in entry:
             ret = ('tuple',) + tuple(env.vars[r][1] for r in entry['result'])     # the final values of these fields
         else:
@@ -231,7 +239,10 @@ class Module:
         for w in ctx.state:
             if w not in reads:
                 raise Unsupported(node, 'internal: written component %s is not a parameter' % w)
-        params = ''.join(' (%s : %s)' % (n, t) for n, t in sp + self.coq_params(ps))
+        extra = [(cname(n_), self.T.coq(parse_type(t_), False)) for n_, t_ in entry.get('inputs', {}).items()]
+        params = ''.join(' (%s : %s)' % (n, t) for n, t in sp + self.coq_params(ps) + extra)
+        if has_while:
+            body = 'let fuel_ok := true in\n' + body
         self.emit_def(entry['coq'], params, self.result_type(ctx), body, node)
         self.funs[q] = FnInfo(q, entry['coq'], ps, reads, list(ctx.state), ctx.exc, ret,
                               entry.get('state') == 'record' and bool(sp), va, kw)
@@ -249,8 +260,60 @@ class Module:
         env = Env(self)
         for n, t in entry['locals'].items():
             env.vars[n] = (cname(n), parse_type(t))
-        from stmt import for_stmt
-        for_stmt(loop, env, Ctx(self, [], False, ('unit',)), lambda e: 'tt')
+        from stmt import for_stmt, effects, by_first_use
+        if 'fold' not in entry:
+            for_stmt(loop, env, Ctx(self, [], False, ('unit',)), lambda e: 'tt')
+            return
+        # also emit the loop itself: a definition over the variables it reads, returning its state
+        f = entry['fold']
+        be = effects(self, loop.body, env)
+        state = by_first_use([v for v in env.vars if v in be.assigned], loop.body)
+        holder = {}
+
+        def tail(e):
+            names = [e.vars[v][0] for v in state]
+            holder['types'] = [e.vars[v][1] for v in state]
+            return names[0] if len(names) == 1 else '(%s)' % ', '.join(names)
+        term = for_stmt(loop, env, Ctx(self, [], False, ('unit',)), tail)
+        for v in f['params']:
+            if v not in env.vars:
+                raise Unsupported(loop, 'fold parameter %s is not a declared local' % v)
+        params = ''.join(' (%s : %s)' % (env.vars[v][0], self.T.coq(env.vars[v][1], False)) for v in f['params'])
+        rty = ' * '.join(self.T.coq(t, False) for t in holder['types'])
+        self.emit_def(f['coq'], params, rty, term, loop)
+
+    def do_prefix(self, entry):
+        """the first statements of a function that is otherwise not translated, as a function of its
+        parameters returning the value one local has after them"""
+        node = self.find(entry['py'])
+        body = [x for x in node.body if not (isinstance(x, ast.Expr) and isinstance(x.value, ast.Constant))]
+        stmts = body[:entry['statements']]
+        self._cur = entry
+        env = Env(self)
+        ps = [(n, parse_type(t)) for n, t in entry['params'].items()]
+        for n, t in ps:
+            env.vars[n] = (cname(n), t)
+        argnames = [a.arg for a in node.args.args if a.arg != 'self']
+        for n, _ in ps:
+            if n not in argnames:
+                raise Unsupported(node, 'parameter %s of %s named by the signature file no longer exists' % (n, entry['py']))
+        from stmt import effects
+        eff = effects(self, stmts, env)
+        ret = parse_type(entry['ret'])
+        ctx = Ctx(self, [], eff.exc, ret)
+
+        def tail(e):
+            cq, t = e.vars[entry['value']]
+            if ret[0] == 'option' and t == ('none',):
+                t = ret
+            elif ret[0] == 'option' and t == ret[1]:
+                cq, t = 'Some %s' % par(cq), ret            # None | T is option T
+            if t != ret:
+                raise Unsupported(node, 'after the prefix %s has type %s, the signature file says %s' % (entry['value'], t, ret))
+            return ctx.ret_(e, cq, node)
+        term = block(stmts, env, ctx, tail)
+        params = ''.join(' (%s : %s)' % (cname(n), self.T.coq(t, False)) for n, t in ps)
+        self.emit_def(entry['coq'], params, self.result_type(ctx), term, stmts[0] if stmts else node)
 
     def do_const(self, entry):
         """class-level constant: frozenset / list / tuple of string constants"""
